@@ -718,7 +718,8 @@ class Agent_0(rpu.AgentComponent):
             return True
 
         self._log.info('cancel pilot cmd')
-        self._final_cause = 'cancel'
+        if not self._final_cause:
+            self._final_cause = 'cancel'
         self.publish(rpc.CONTROL_PUBSUB, {'cmd' : 'terminate',
                                           'arg' : None})
         self.stop()
